@@ -516,6 +516,79 @@ fn long_rank_universe(corpus: &[Pos], sink: &Sink) -> Tally {
         .reduce(Tally::default, Tally::merge)
 }
 
+/// Characters that Unicode-aware helpers could confuse with the ASCII alphabet of a record: every
+/// ASCII character, every non-ASCII character whose lower-/upper-case mapping contains an ASCII
+/// character (e.g. U+212A KELVIN SIGN), every Unicode white-space and numeric character and the
+/// full-width forms. `all`: every Unicode scalar value.
+pub fn unicode_menu(all: bool) -> Vec<char> {
+    (0..0x110000u32)
+        .filter_map(char::from_u32)
+        .filter(|&c| {
+            all || c.is_ascii()
+                || c.to_lowercase().any(|x| x.is_ascii())
+                || c.to_uppercase().any(|x| x.is_ascii())
+                || c.is_whitespace()
+                || c.is_numeric()
+                || ('\u{ff01}'..='\u{ff5e}').contains(&c)
+        })
+        .collect()
+}
+
+/// Every character position of a record substituted by every character of the menu.
+fn unicode_universe(records: &[String], menu: &[char], sink: &Sink) -> Tally {
+    let jobs: Vec<(usize, usize)> = records.iter().enumerate().flat_map(|(ri, r)| (0..r.chars().count()).map(move |i| (ri, i))).collect();
+    jobs.par_iter()
+        .fold(Tally::default, |mut t, &(ri, pos)| {
+            let chars: Vec<char> = records[ri].chars().collect();
+            let mut text = String::with_capacity(records[ri].len() + 4);
+            for &c in menu {
+                if c == chars[pos] {
+                    continue;
+                }
+                text.clear();
+                for (i, &x) in chars.iter().enumerate() {
+                    text.push(if i == pos { c } else { x });
+                }
+                t.states += 1;
+                t.evals += 1;
+                for e in Entry::ALL {
+                    check_text(&text, e, None, sink, &mut t);
+                }
+            }
+            t
+        })
+        .reduce(Tally::default, Tally::merge)
+}
+
+/// Every field of a record padded, before or after, with 1..=600 copies of a character: lengths
+/// and values that wrap in a narrow integer must not make a malformed record acceptable.
+fn padded_field_universe(records: &[String], sink: &Sink) -> Tally {
+    let pads: [char; 8] = [' ', '0', '1', '8', '-', 'K', '/', '\u{e9}'];
+    let jobs: Vec<(usize, usize, usize)> = (0..records.len()).flat_map(|r| (0..6usize).flat_map(move |f| (0..pads.len()).map(move |p| (r, f, p)))).collect();
+    jobs.par_iter()
+        .fold(Tally::default, |mut t, &(ri, fi, pi)| {
+            let fields: Vec<&str> = records[ri].split(' ').collect();
+            if fields.len() != 6 {
+                return t;
+            }
+            for n in 1..=600usize {
+                let run: String = std::iter::repeat(pads[pi]).take(n).collect();
+                for front in [true, false] {
+                    let mut v: Vec<String> = fields.iter().map(|x| x.to_string()).collect();
+                    v[fi] = if front { format!("{}{}", run, fields[fi]) } else { format!("{}{}", fields[fi], run) };
+                    let text = v.join(" ");
+                    t.states += 1;
+                    t.evals += 1;
+                    for e in Entry::ALL {
+                        check_text(&text, e, None, sink, &mut t);
+                    }
+                }
+            }
+            t
+        })
+        .reduce(Tally::default, Tally::merge)
+}
+
 fn short_universe(sink: &Sink) -> Tally {
     let alpha40 = crate::props::pure::ALPHA40;
     alpha40
@@ -569,13 +642,29 @@ fn run_c08(run: &mut Run) {
         Box::new(crate::universes::Castle { extra: if q { 0 } else { 1 }, ek_rank2: false }),
         Box::new(crate::universes::Edit { corpus: corpus.iter().take(if q { 40 } else { 400 }).cloned().collect(), two_edits_for_first: 0 }),
         Box::new(crate::universes::EpUniverse::small()),
+        Box::new(crate::universes::LongFen),
     ];
     let t = raw_record_universe(&raws, &run.sink);
-    run.add("T-FENRAW", json!({"records_of": "S-CASTLE (incl. king off the back rank, every subset of rights), one-edit neighbours of corpus boards (S-EDIT), S-EP(small)", "expectation": "field named when exactly one of castling / en passant / half-move / full-move is unsupported and the record is otherwise accepted"}), true, t0, t);
+    run.add("T-FENRAW", json!({"records_of": "S-CASTLE (incl. king off the back rank, every subset of rights), one-edit neighbours of corpus boards (S-EDIT), S-EP(small), S-LONGFEN", "expectation": "field named when exactly one of castling / en passant / half-move / full-move is unsupported and the record is otherwise accepted"}), true, t0, t);
     let t0 = Instant::now();
     let lc: Vec<Pos> = corpus.iter().take(if q { 2 } else { 12 }).cloned().collect();
     let t = long_rank_universe(&lc, &run.sink);
     run.add("T-FENLONG", json!({"records": lc.len(), "ranks": 8, "digit": "1 2 4 8 9", "run_lengths": "1..=300 (all digits), 512..65536 by powers of two (digits 1 and 8)", "position": "before and after the rank"}), true, t0, t);
+    let t0 = Instant::now();
+    let mut recs: Vec<String> = vec!["rnbqkbnr/pppppppp/8/8/8/8/PPPPPPPP/RNBQKBNR w KQkq - 0 1".to_string(), "r3k2r/p1ppqpb1/bn2pnp1/3PN3/1p2P3/2N2Q1p/PPPBBPPP/R3K2R w HAha - 12 34".to_string(), "4k3/8/8/8/3Pp3/8/8/4K3 b - d3 0 57".to_string()];
+    recs.extend(corpus.iter().take(if q { 3 } else { 20 }).map(|p| to_fen(p, true)));
+    let menu = unicode_menu(false);
+    let t = unicode_universe(&recs, &menu, &run.sink);
+    run.add("T-FENUNICODE", json!({"records": recs.len(), "menu": menu.len(), "menu_is": "all ASCII; non-ASCII characters whose case mappings contain ASCII; Unicode white space; Unicode numeric characters; full-width forms", "edit": "every character position substituted by every menu character", "entry_points": 3}), true, t0, t);
+    let t0 = Instant::now();
+    let t = padded_field_universe(&recs[..if q { 3 } else { recs.len().min(8) }], &run.sink);
+    run.add("T-FENPAD", json!({"records": if q { 3 } else { recs.len().min(8) }, "fields": 6, "pad_characters": "space 0 1 8 - K / U+E9", "pad_counts": "1..=600", "position": "before and after the field", "entry_points": 3}), true, t0, t);
+    if !q {
+        let t0 = Instant::now();
+        let all = unicode_menu(true);
+        let t = unicode_universe(&recs[..2], &all, &run.sink);
+        run.add("T-FENUNICODE(all scalar values)", json!({"records": 2, "menu": all.len(), "edit": "every character position substituted by every Unicode scalar value", "entry_points": 3}), true, t0, t);
+    }
     let t0 = Instant::now();
     let t = short_universe(&run.sink);
     run.add("T-SHORT", json!({"alphabet": 40, "max_len": 3}), true, t0, t);
